@@ -10,7 +10,11 @@ Record fview := {
   fv_pre : list (list Z);         (* ids of the preconditions on the wrapper that enforces them, by group *)
   fv_snaps : list Z;
   fv_post : list Z;
-  fv_intro : bool }.              (* [find_checker] - the introspection interface - returns that very wrapper *)
+  fv_intro : bool;                (* [find_checker] - the introspection interface - returns that very wrapper *)
+  fv_meta : bool }.               (* name, qualname, doc, module, annotations, signature, abstractness and
+                                     coroutine-ness of the outermost object are those of the original function,
+                                     which is the end of the __wrapped__ chain (a functools / inspect fact:
+                                     observed, the model has nothing to say about it) *)
 
 Definition view_func (w : world) (f : nat) : fview :=
   let roles := flat_map (fun i => match get_func w i with Some fo => [fo_role fo] | None => [] end) (chain w f) in
@@ -22,10 +26,10 @@ Definition view_func (w : world) (f : nat) : fview :=
              fv_pre := match fo_pre fo with Some r => map (map cid) (groups_of w r) | None => [] end;
              fv_snaps := match fo_snaps fo with Some r => map sid (snapshots_of w r) | None => [] end;
              fv_post := match fo_post fo with Some r => map cid (contracts_of w r) | None => [] end;
-             fv_intro := true |}
-      | None => {| fv_chain := roles; fv_pre := []; fv_snaps := []; fv_post := []; fv_intro := true |}
+             fv_intro := true; fv_meta := true |}
+      | None => {| fv_chain := roles; fv_pre := []; fv_snaps := []; fv_post := []; fv_intro := true; fv_meta := true |}
       end
-  | None => {| fv_chain := roles; fv_pre := []; fv_snaps := []; fv_post := []; fv_intro := true |}
+  | None => {| fv_chain := roles; fv_pre := []; fv_snaps := []; fv_post := []; fv_intro := true; fv_meta := true |}
   end.
 
 Inductive mview :=
@@ -112,7 +116,8 @@ Definition fview_eqb (a b : fview) : bool :=
   && list_eqb (list_eqb Z.eqb) (fv_pre a) (fv_pre b)
   && list_eqb Z.eqb (fv_snaps a) (fv_snaps b)
   && list_eqb Z.eqb (fv_post a) (fv_post b)
-  && Bool.eqb (fv_intro a) (fv_intro b).
+  && Bool.eqb (fv_intro a) (fv_intro b)
+  && Bool.eqb (fv_meta a) (fv_meta b).
 
 Definition mkind_eqb (a b : mkind) : bool :=
   match a, b with
